@@ -22,12 +22,16 @@ def run(tier, seed):
                 "C15_target_text (segmented form, no annotation line) so the theorem applies to that very source; oracles on the "
                 "real output: qualifier-erased token streams of the opencl/cuda forms equal the cpu form, no placeholder left, "
                 "every pointer type in the opencl form carries __global, each form accepted by the host compiler with the "
-                "target keywords defined away (and executed on the host against the cpu form under C16)",
+                "target keywords defined away (and executed on the host against the cpu form under C16); the CONTEXTS' own assembly: "
+                "ContextPyopencl.build_kernels / ContextCupy.build_kernels run unchanged against recording stand-ins of pyopencl / cupy "
+                "(harness/gpuprobe.py) and the program text behind the headers must equal the cpu context's up to qualifiers",
         "samples": r["samples"],
         "tags": r["tags"],
         "correspondence": {"spec": {"lines": r["lines"], "mismatches": len(r["mismatches"])}},
         "assumptions": ["Python str.replace/splitlines semantics as modelled (LF-only, ASCII; other line separators are outside the generator)",
-                        "real OpenCL/CUDA compilers are absent: acceptance is witnessed by the host compiler with shims"],
+                        "real OpenCL/CUDA compilers are absent: acceptance is witnessed by the host compiler with shims",
+                        "pyopencl / cupy are absent: the GPU contexts' build_kernels run against stand-ins that accept everything and record "
+                        "the program text (nothing is executed on a device)"],
         "partial": ["`every pointer into object memory is preceded by the gpuglmem placeholder in the generated source' is a property of "
                     "the generator's text checked by the oracle on every generated API, not a theorem"],
     }
